@@ -173,6 +173,7 @@ inductive Ev2 where
   | stop (id : Nat)
   | saveState
   | loadState
+  | loadOrd (order : List Nat)   -- wave 6: load-state with the directory listing order of the stored ids
 deriving DecidableEq, Repr
 
 def dropStored (st : List (Nat × Nat)) (k : Nat) : List (Nat × Nat) := st.filter (fun p => p.1 != k)
@@ -200,11 +201,17 @@ def storedIds (s : State) : List (Nat × Nat) :=
 
 def loadState (s : State) (now : Nat) : State := (storedIds s).foldl (loadOne now) s
 
+/-- the stored instances in the order `ord` of a directory listing (ids without stored state are skipped;
+a repeated id is loaded again) -/
+def loadEntries (s : State) (ord : List Nat) : List (Nat × Nat) :=
+  ord.filterMap (fun k => (lookupStored s.stored k).map (fun τ => (k, τ)))
+
 def step2 (c : Cfg) (s : State) (now : Nat) : Ev2 → State × Bool
   | .old e => step c s now e
   | .stop k => (stopInst s k, true)
   | .saveState => saveState s
   | .loadState => (loadState s now, true)
+  | .loadOrd ord => ((loadEntries s ord).foldl (loadOne now) s, true)
 
 def run2 (c : Cfg) (s : State) : List (Nat × Ev2) → State
   | [] => s
@@ -319,6 +326,7 @@ def stepR (c : CfgR) (rd : Rd) (s : State) : Ev2 → State × Bool × Nat
   | .stop k => (stopInst s k, true, 0)
   | .saveState => ((saveState s).1, true, 0)
   | .loadState => (loadKeys rd (storedIds s) 0 s, true, (storedIds s).length)
+  | .loadOrd ord => (loadKeys rd (loadEntries s ord) 0 s, true, (loadEntries s ord).length)
 
 /-- a timed request: start time, clock increments after each read, event -/
 abbrev Req := Nat × List Nat × Ev2
@@ -337,5 +345,34 @@ def endTimeR (t0 : Nat) : List Req → Nat
   | (t, incs, _) :: rest => endTimeR (t + incs.sum) rest
 
 def isTriggerR (c : CfgR) (s : State) (k : Nat) : Ev2 → Bool := isTrigger2 c.base s k
+
+/-! ### wave 6 — the expiry comparison is on the FULL duration
+
+`_timeout_instances` compares `now >= last + timedelta(**timeout)`: the whole idle time in microseconds against the
+whole timeout (unbounded days, µs resolution).  The comparison is a parameter `cmp idle timeout`; `fullCmp` is the
+code as it is, `expOf obs` is `fullCmp` patched by the rows `obs` (idle µs, timeout µs, removed?) observed on the
+real sweep on every run.  `secondsCmp` is the seeded `idle.seconds >= timeout.total_seconds()`: the seconds
+COMPONENT of the idle time (wraps every 24 h, drops the microseconds). -/
+
+abbrev ExpCmp := Nat → Nat → Bool
+
+def fullCmp : ExpCmp := fun idle τ => decide (τ ≤ idle)
+
+abbrev ExpObs := List (Nat × Nat × Bool)
+
+def expLookup : ExpObs → Nat → Nat → Option Bool
+  | [], _, _ => none
+  | (i, τ, v) :: rest, idle, t => if i = idle ∧ τ = t then some v else expLookup rest idle t
+
+def expOf (o : ExpObs) : ExpCmp := fun idle τ => (expLookup o idle τ).getD (fullCmp idle τ)
+
+def expiryIsFullDuration (o : ExpObs) : Bool := o.all (fun x => x.2.2 == fullCmp x.1 x.2.1)
+
+def expDeviatesAt (o : ExpObs) (idle τ : Nat) : Bool := expOf o idle τ != fullCmp idle τ
+
+def dayMicros : Nat := 86400000000
+
+/-- `idle.seconds >= timeout.total_seconds()` -/
+def secondsCmp : ExpCmp := fun idle τ => decide (τ ≤ (idle % dayMicros) / 1000000 * 1000000)
 
 end Bptk.C17
